@@ -20,12 +20,14 @@ TEMPLATES = [
     ("dropped_value", "(do (+ a b) (* a c) (- b c))", "b - c"),
     ("closure_mut", "(do (var n a) (def inc (fn [] (set n (+ n b)))) (inc) (inc) n)", "(a + b) + b"),
     ("case_num", "(case 2 1 a 2 b c)", "b"),
+    ("closure_deep_block", "(do (var f nil) (do (do (var x a) (set f (fn [] (set x (+ x b)) x)))) (def y c) (def z (* c 2)) (def w (+ c 1)) (f) (+ (+ (+ (f) y) z) w))", "((((a + b) + b) + c) + c * 2) + (c + 1)"),
+    ("closure_if_let", "(do (var g nil) (if (< a b) (let [p (+ a 1)] (set g (fn [] (+ p c)))) (let [q (- a 1)] (set g (fn [] (- q c))))) (def u (* b 3)) (def v (* b 5)) (+ (+ (g) u) v))", "(a < b) ? (((a + 1) + c) + b * 3) + b * 5 : (((a - 1) - c) + b * 3) + b * 5"),
     ("quasi_len", "(length ~(1 ,a ,;[b c]))", "4"),
 ]
-QUICK = ("arith", "if_lt", "var_set", "let_chain", "for_sum", "destructure", "dropped_value", "and_or", "case_num")
+QUICK = ("arith", "if_lt", "var_set", "let_chain", "for_sum", "destructure", "dropped_value", "and_or", "case_num", "closure_deep_block", "closure_if_let", "closure_mut")
 CONTEXTS = [
     ("top", "(fn [a b c] %s)"),
-    ("nested", "(fn [a b c] ((fn [] %s)))"),
+    ("nested", "(fn [a b c] (def r ((fn [] %s))) r)"),
     ("loop", "(fn [a b c] (var r nil) (for k 0 2 (set r %s)) r)"),
     ("nontail", "(fn [a b c] (def r %s) r)"),
     ("manylocals", None),
@@ -82,15 +84,15 @@ def prepare(tier, vf):
         hdr = {
             "defines": ["-DJANET_NO_NANBOX"],
             "units": ["vm.c", "fiber.c", "value.c", "wrap.c", "state.c", "util.c", "tuple.c", "array.c"],
-            "remove_bodies": ["janet_binop_call", "janet_mcall", "janet_getmethod", "janet_sandbox", "janet_sandbox_assert", "janet_init", "janet_deinit"],
+            "remove_bodies": ["safe_memcpy", "janet_binop_call", "janet_mcall", "janet_getmethod", "janet_sandbox", "janet_sandbox_assert", "janet_init", "janet_deinit"],
             "cbmc": ["--no-built-in-assertions", "--paths", "lifo"],
             "no_body_deny_re": "^(janet_(fiber|continue|call|in|get|put|next|length|binop|mcall|tuple|array|struct|table)|run_vm)",
             "backend": "cadical", "unwind": 24, "unwind_functions": {"run_vm": 400, "memcpy": 600, "memmove": 600, "janet_fiber_funcframe": 300, "janet_fiber_funcframe_tail": 300}, "timeout": 400, "mem_gb": 4,
             "cases": [dict({"name": CONTEXTS[i][0], "D": ["-DVF_CTX=%d" % i],
-                            "tier": "quick" if (CONTEXTS[i][0] in ("nontail", "loop") and name in QUICK) else "thorough", "timeout": 400, "timeout_thorough": 1500},
+                            "tier": "quick" if ((CONTEXTS[i][0] in ("nontail", "loop") and name in QUICK) or (CONTEXTS[i][0] == "nested" and name in ("arith", "if_lt", "var_set", "closure_deep_block"))) else "thorough", "timeout": 400, "timeout_thorough": 1500},
                            **({"unwind": 300} if CONTEXTS[i][0] == "manylocals" else {})) for i in range(1, len(CONTEXTS))],
             "functions_encoded": ["vm.c: run_vm, janet_continue*", "fiber.c: frames, closures environments (janet_env_detach, janet_env_valid)", "compile.c, specials.c, emit.c, regalloc.c, cfuns.c, bytecode.c and the boot.janet macros of the current tree run concretely to produce each function (fdump)"],
-            "asserted": ["K1: for every template and ALL number inputs a b c, the code compiled at top level, inside a nested closure, inside a loop body, in non-tail position and with 260 live locals returns bit-identical results and raises in none",
+            "asserted": ["K1: for every template and ALL number inputs a b c, the code compiled at top level, inside a nested closure (called in non-tail position: a tail call detaches the environment, and CBMC then loses track of the detached value array), inside a loop body, in non-tail position and with 260 live locals returns bit-identical results and raises in none",
                          "K2: the top-level result equals the C expression that states the template's meaning"],
             "bounds": ["%d templates (arithmetic, if/cond/case, var+set, let, for/while+break with concrete trip counts, destructuring, and/or, fn call, optional and variadic parameters, tail vs non-tail calls, closures over mutable variables, quasiquote); inputs: each of a b c ranges over a 20-entry table of boundary doubles chosen by the solver (8000 combinations, decided symbolically)" % len(TEMPLATES)],
             "stubs": ["GC allocation = malloc, collection disabled", "janet_panic family = failed obligation (no template may raise on numbers)", "_setjmp returns 0", "memcpy/memmove word-wise"],
